@@ -180,6 +180,12 @@ def placement_suspects():
             out.append(("placement:codegen-error %s in hole %d (assigned)" % (e, i), pre + "r = " + (h % e) + "\nprint r\n"))
         out.append(("placement:codegen-error %s as condition" % e, pre + "if %s {\n  print 1\n}\nwhile %s {\n  break\n}\n" % (e, e)))
         out.append(("placement:codegen-error %s returned" % e, pre + "g = fn() -> bool {\n  return %s\n}\nprint g()\n" % e))
+    # import paths without a file name, at the top level and inside every kind of block
+    for path in ["..ms", "..", ".", "./", "/", "a/..", "../..ms", "./.ms", ".ms", "a/../..ms"]:
+        out.append(("placement:import-path %s top" % path, "import %s\n" % path))
+        out.append(("placement:import-path %s names" % path, "import x from %s\n" % path))
+        for head in ("if true {", "while true {", "from 0 to 1 {", "f = fn() {", "if false {\n} else {"):
+            out.append(("placement:import-path %s in %s" % (path, head.split()[0]), "%s\n  import %s\n}\n" % (head, path)))
     for ty in ["Self", "Self?", "[Self...]", "[Self?...]", "map[str, Self]", "fn(Self) -> int", "fn() -> Self", "fn() -> Self?"]:
         out.append(("placement:Self-outside-class %s variable" % ty, "x: %s = nil\nprint x\n" % ty))
         out.append(("placement:Self-outside-class %s member" % ty, "x: %s = nil\nprint (get x).foo\nprint x.foo\nprint (x).foo()\n" % ty))
